@@ -551,20 +551,22 @@ abbrev Types := List (List Field)   -- index i ↔ node type i + 1
 
 def fuelOf (g : AGrammar) : Nat := g.rules.length + 2
 
-/-- The validator. -/
-def checkTypes (g : AGrammar) (alph : List (List Nat)) (nul : List Bool) (types : Types) : Bool :=
-  wfGrammar g && alphClosed g alph && nullClosed g nul && nodesNonEmpty g nul &&
+/-- Field part of the validator: presence, typing and coverage on the regular approximation. -/
+def checkFields (g : AGrammar) (alph : List (List Nat)) (types : Types) : Bool :=
+  wfGrammar g && alphClosed g alph &&
   (List.range types.length).all (fun i =>
     match mkAccs (types.getD i []) with
     | none => false
     | some accs => checkRe accs (approx g alph (fuelOf g) (i + 1)))
 
-/-- First failing condition, for the driver's answer. -/
-def explain (g : AGrammar) (alph : List (List Nat)) (nul : List Bool) (types : Types) : String :=
+/-- The validator. -/
+def checkTypes (g : AGrammar) (alph : List (List Nat)) (nul : List Bool) (types : Types) : Bool :=
+  checkFields g alph types && nullClosed g nul && nodesNonEmpty g nul
+
+/-- First failing condition of `checkFields`, for the driver's answer. -/
+def explainFields (g : AGrammar) (alph : List (List Nat)) (types : Types) : String :=
   if !wfGrammar g then "grammar: rule of a terminal"
   else if !alphClosed g alph then "alphabet not closed"
-  else if !nullClosed g nul then "nullable set not closed"
-  else if !nodesNonEmpty g nul then "a reported range can be empty (nodes are nested by offsets: finding C21-empty-node)"
   else
     match (List.range types.length).find? (fun i =>
       match mkAccs (types.getD i []) with
@@ -575,5 +577,10 @@ def explain (g : AGrammar) (alph : List (List Nat)) (nul : List Bool) (types : T
       match mkAccs (types.getD i []) with
       | none => s!"type {i + 1}: FetchAfter chain is not well formed"
       | some accs => s!"type {i + 1}: {firstBad accs (approx g alph (fuelOf g) (i + 1))}"
+
+def explain (g : AGrammar) (alph : List (List Nat)) (nul : List Bool) (types : Types) : String :=
+  if !nullClosed g nul then "nullable set not closed"
+  else if !nodesNonEmpty g nul then "a reported range can be empty (nodes are nested by offsets: finding C21-empty-node)"
+  else explainFields g alph types
 
 end TmVerif.AstTypes
